@@ -15,6 +15,7 @@ import (
 	"net/http/httputil"
 	"strings"
 	"sync"
+	"sync/atomic"
 	"testing"
 	"time"
 
@@ -30,7 +31,10 @@ type verifC05Case struct {
 	Config string `json:"config"`   // plain | shim | banner
 	CL     bool   `json:"content_length"` // the backend declares Content-Length and still writes the body in pieces
 	Proto  string `json:"proto"`          // protocol version on the request line of the forwarded request
+	Many   bool   `json:"many,omitempty"` // one of the responses that are all held open at the same time
 }
+
+const verifC05Many = 40
 
 type verifC05Obs struct {
 	Delivered []bool  `json:"delivered"`  // chunk i reached the proxy before the backend wrote chunk i+1
@@ -53,6 +57,8 @@ func TestVerifC05(t *testing.T) {
 	observed := map[string]chan int{} // cumulative payload bytes seen by the proxy
 	obs := map[string]*verifC05Obs{}
 
+	var manyArrived int64
+	manyAll := make(chan struct{})
 	backend := httptest.NewServer(http.HandlerFunc(func(w http.ResponseWriter, r *http.Request) {
 		id := strings.TrimPrefix(r.URL.Path, "/c05/")
 		mu.Lock()
@@ -106,6 +112,17 @@ func TestVerifC05(t *testing.T) {
 			mu.Unlock()
 			if !ok {
 				return
+			}
+			if c.Many && i == 0 {
+				// keep this response open until all of the many responses have had their first chunk relayed
+				if atomic.AddInt64(&manyArrived, 1) == verifC05Many {
+					close(manyAll)
+				}
+				select {
+				case <-manyAll:
+				case <-time.After(8 * time.Second):
+					return
+				}
 			}
 			time.Sleep(time.Duration(c.Pause) * time.Millisecond)
 		}
@@ -290,6 +307,42 @@ func TestVerifC05(t *testing.T) {
 				}
 				time.Sleep(20 * time.Millisecond)
 			}
+		}
+		if config == "plain" {
+			// many responses open at once: each is held after its first chunk until all of them have had theirs relayed
+			var many []string
+			for i := 0; i < verifC05Many; i++ {
+				c := &verifC05Case{ID: fmt.Sprintf("plain-many-%d", i), Chunks: []int{10, 10}, Config: config, Proto: "HTTP/1.1", Many: true}
+				mu.Lock()
+				cases[c.ID] = c
+				observed[c.ID] = make(chan int, 1)
+				obs[c.ID] = &verifC05Obs{}
+				mu.Unlock()
+				many = append(many, c.ID)
+			}
+			pendingLists <- many
+			deadline := time.Now().Add(60 * time.Second)
+			for time.Now().Before(deadline) {
+				done := true
+				mu.Lock()
+				for _, id := range many {
+					o := obs[id]
+					if !(len(o.Delivered) >= 2 && o.Uploads > 0) && !(len(o.Delivered) > 0 && !o.Delivered[len(o.Delivered)-1]) {
+						done = false
+					}
+				}
+				mu.Unlock()
+				if done {
+					break
+				}
+				select {
+				case <-manyAll:
+					time.Sleep(20 * time.Millisecond)
+				case <-time.After(9 * time.Second):
+					deadline = time.Now() // the barrier was not reached: the handlers have given up
+				}
+			}
+			ids = append(ids, many...)
 		}
 		cancel()
 		// wait for this configuration's poll loop to end (its list call in flight returns within 2 s): otherwise that call
